@@ -343,7 +343,7 @@ func ruleWireFor(w *World, r *RuleResult) {
 	cw := w.LibFunc("CompileWarrior")
 	fe := w.LibFunc("ForExpand")
 	si := w.LibFunc("ScanInput")
-	np := w.LibFunc("newParser")
+	np := Asm(w).NewParser
 	if cw != nil && fe != nil && si != nil {
 		ps, _ := w.Paths(cw)
 		for _, p := range ps {
@@ -362,7 +362,7 @@ func ruleWireFor(w *World, r *RuleResult) {
 						tokOf := func(t *T) string {
 							var k string
 							t.walk(func(x *T) bool {
-								if x.Op == "call" && strings.HasSuffix(x.S, "newBufTokenReader") && len(x.A) == 1 {
+								if x.Op == "call" && x.S == fnKey(Asm(w).NewBufReader) && len(x.A) == 1 {
 									k = stripEpoch(x.A[0]).Key()
 								}
 								return k == ""
